@@ -42,7 +42,13 @@ func c01One(env *Env, m *wvlib.Model, c *PairCase, comps []Comp) {
 	nontrivial := false
 	for ci, comp := range comps {
 		c.Comp = comp
-		ev, err := evalPair(env, m, od, nd, comp, nil, ci == 0)
+		// every second setting reads the new build through a pool that returns short reads and hands out the last
+		// bytes of a file together with io.EOF (as zip-backed pools do): the patch must not depend on it
+		var slice *wvlib.Rng
+		if ci%2 == 1 {
+			slice = wvlib.NewRng(c.Seed ^ uint64(ci)*0x9e3779b97f4a7c15)
+		}
+		ev, err := evalPair(env, m, od, nd, comp, slice, ci == 0)
 		if err != nil {
 			env.R.Violate("diff-error", err.Error(), c)
 			return
